@@ -72,7 +72,7 @@ def widen(p):
     return ["LONG" + x[3:] if x.startswith("INT") else x for x in p]
 
 
-def run(rep, tier="quick", replay=None, evidence_dir=None):
+def run(rep, tier="quick", replay=None, evidence_dir=None, collect_only=False):
     prog = Program(factsmod.extract())
     rep.rule("C16.R1", "per serde method and schema shape: serializer writes / deserializer reads what the generic decoder reads; both accept the same shapes")
     rep.rule("C16.R2", "union: branch index first")
@@ -328,8 +328,10 @@ def run(rep, tier="quick", replay=None, evidence_dir=None):
         sd = calls_named(en, RS + "serialize_default")
         rep.ob("C16.R5", "RecordSerializer::end fills every remaining position with its default (loop until all fields are written)", len(sd) == 1 and en.in_loop(sd[0][0]), "", en.loc())
 
+    if collect_only:
+        return rep
     rep.floor("C16", "obligations", len(rep.obligations), 150)
-    rep.not_decided = ["equality of Rust values after a round trip", "schema-less to_value / from_value equivalence", "composite methods (seq/map/struct/tuple/newtype/option): their framing is R4/R5, their elements recurse into the scalar cells"]
+    rep.not_decided = ["equality of Rust values after a round trip", "schema-less mapping of composite types", "composite methods (seq/map/struct/tuple/newtype/option): their framing is R4/R5, their elements recurse into the scalar cells"]
     return common.finish(rep, level="other",
                          explanation="variant-partitioned path summaries of every scalar serde method of SchemaAwareSerializer and SchemaAwareDeserializer (schema taken from the `self.schema` field) compared cell by cell with the generic decoder's table; imported byte-count and block-framing obligations; loop/def-use shape of RecordSerializer",
                          assumptions=["serde calls the data-model method documented for each Rust type"], evidence_dir=evidence_dir)
